@@ -1,11 +1,15 @@
 """C11 -- parsed Verilog and bench netlists simulate as the described netlist."""
 import random
 
-from harness import circgen as cg, vlog_corr as vc, vlog_gen as vg
+from harness import circgen as cg, vlog_corr as vc, vlog_gen as vg, bench_text as bt
 
 THEOREMS = ['C11_range_names', 'C11_range_ends', 'C11_range_single', 'C11_bitname_inj', 'C11_bus_names_nodup',
             'C11_sized_const', 'C11_const_bits_msb_first', 'C11_concat_flatten', 'C11_port_positions', 'C11_io_order',
-            'C11_bench_wiring', 'C11_bench_node_unique']
+            'C11_bench_wiring', 'C11_bench_node_unique',
+            # bench.py from TEXT (Model/BenchText.v)
+            'C11_bench_lex_render', 'C11_bench_parse_render', 'C11_bench_token_language', 'C11_bench_keyword_assignment_rejected',
+            'C11_bench_parse_print', 'C11_bench_any_rendering', 'C11_bench_lex_iff', 'C11_bench_language', 'C11_bench_text_wiring', 'C11_bench_rendering_wiring',
+            'C11_bench_text_node_unique']
 
 WHAT = {
     'parse-raises': 'a netlist in the supported subset is rejected',
@@ -55,6 +59,42 @@ def run(ck):
                 fails.append(('helper:' + d['kind'], 'VerilogTransformer helper: ' + o, {'component': 'verilog.VerilogTransformer', 'input': d, 'actual': o}))
             cases.append(c)
             meta.append(d)
+    # ---- bench.py TEXT level: lark (lexer + LALR parser) against parse_bench / bench_of_text / print_bench ---------
+    tcases, tmeta = [], []
+    n_rej = {'rendered': 0, 'malformed': 0, 'soup': 0}
+    for _ in range(ck.scale(260, 5000)):
+        cs, d, of = bt.text_case(rng)
+        ck.count(1, 'text:' + d['stream'] + (':lark-raises' if d['raises'] else (':elab-raises' if d['raises_parse'] else '')))
+        ck.nontrivial(('text', d['text'][:160]))
+        if d['raises']:
+            n_rej[d['stream']] += 1
+        if of:
+            fails.append(('bench-text:' + d['stream'], 'bench.py grammar: ' + of, {'component': 'bench.GRAMMAR / lark', 'input': d, 'actual': of}))
+        tcases += cs
+        tmeta += [d] * len(cs)
+    for _ in range(ck.scale(40, 600)):
+        cs, d, of = bt.print_case(rng)
+        ck.count(1, 'text:printed')
+        if of:
+            fails.append(('bench-text:print', 'bench.py grammar: ' + of, {'component': 'bench.GRAMMAR / lark', 'input': d, 'actual': of}))
+        tcases += cs
+        tmeta += [d] * len(cs)
+    cs, ds = bt.corner_cases()
+    tcases += cs
+    tmeta += ds
+    ck.count(len(ds) // 2, 'text:corner')
+    tsize = 100
+    tchunks = [tcases[i:i + tsize] for i in range(0, len(tcases), tsize)]
+    touts = ck.coq_eval_many('bt', [bt.cases_file(ch) for ch in tchunks], jobs=12)
+    tbad = [ci * tsize + j for ci, (ok, out) in enumerate(touts) for j in ((cg.parse_nat_list(out) if ok else None) or [])]
+    tran = all(ok and cg.parse_nat_list(out) is not None for ok, out in touts)
+    terr = next((out[-600:] for ok, out in touts if not ok), '')
+    ck.obligation(f'Coq transcription of bench.GRAMMAR as lark parses it (contextual lexer: keyword vs NAME, ignore rule; LALR parser) = the statement '
+                  f'sequence the real BenchTransformer is called with, and bench_of_text = bench.parse, on {len(tcases)} cases: rendered statement lists '
+                  f'with arbitrary white space / comments, the fixed corner-case probes (keyword vs NAME, empty lists, \\r, end-of-text comments), a malformed stream ({n_rej["malformed"]} texts rejected by lark) and token soup '
+                  f'({n_rej["soup"]} rejected) -- both must reject; print_bench output read back by lark',
+                  tran and not tbad and n_rej['malformed'] > 0 and n_rej['soup'] > 0, 'correspondence',
+                  f'failing cases {tbad[:8]} {[tmeta[b] for b in tbad[:2]]} {terr}')
     # ---- oracle: generated netlists -------------------------------------------------------------------------------
     n_main = ck.scale(330, 9000)
     bench_cases = []
@@ -121,10 +161,12 @@ def run(ck):
             'bus ports / wires (ascending, descending, offsets, 1-bit), bit / part selects, concatenations (nested), sized constants b/d/h with '
             'truncation, assigns, escaped identifiers, comments / attributes, white space, shuffled statements and pins, unconnected outputs, '
             'constants on pins; exhaustive truth tables up to 10 inputs+states, else 256 patterns; helper methods on random tokens incl. invalid ones')
-    ck.trust('NOT modelled: the lark grammars / lexers of verilog.py and bench.py and passes 1, 1.5, 2 of VerilogTransformer.module (cell, fork and line '
+    ck.trust('NOT modelled: the lark grammar / lexer of verilog.py, lark itself (bench.py: its behaviour on bench.GRAMMAR is transcribed in Model/BenchText.v '
+             'and compared on every run, code points < 256), and passes 1, 1.5, 2 of VerilogTransformer.module (cell, fork and line '
              'construction, assigns, constants, branch forks), TechLib lookups, Circuit.substitute: covered by the generator-owned differential oracle only',
              'modelled, not verified: VerilogTransformer.range/sigsel/concat, SignalDeclaration.names, declaration, pass 0 + position table + io_nodes '
-             'of module, BenchTransformer with the Node/Line constructors (Model/VerilogElab.v; exact correspondence on every run)',
+             'of module, BenchTransformer with the Node/Line constructors (Model/VerilogElab.v; exact correspondence on every run), '
+             'bench.GRAMMAR under lark: lexer, keyword resolution, parser (Model/BenchText.v; exact correspondence on every run)',
              'cell functions of the oracle are the datasheet families of C19 (family_of / family_fn); a floating cell input has no defined value and is '
              'not generated; an escaped scalar \\\\k[7]  and bit 7 of a bus k are the same name for kyupy: such collisions are not generated')
     ck.assumptions.append('theorems range over the transcribed helper functions; ranges use non-negative bounds (the lexer admits digits only)')
@@ -134,12 +176,16 @@ def run(ck):
     for key, lst in seen.items():
         what, rp = min(lst, key=lambda x: len(str(x[1])))      # the smallest failing input of each kind
         ck.fail(key, f'{what}  ({len(lst)} failing inputs of this kind)', rp)
+    if not fails and tbad:
+        ck.fail('model-disagrees-text', 'Coq model of the bench text level and lark disagree', {'component': 'Model/BenchText.v', 'input': tmeta[tbad[0]]}, found_input=False)
     if not fails and bad:
         ck.fail('model-disagrees', 'Coq model and implementation disagree', {'component': 'Model/VerilogElab.v', 'input': meta[bad[0]]}, found_input=False)
 
 
 def replay(rp):
     inp = rp['input']
+    if inp.get('kind') in ('bench-text', 'bench-print'):
+        return True     # text cases are regenerated from the seed; the text and what lark did with it are in the replay
     if 'netlist' in inp:
         net = vg.Net.from_description(inp['netlist'])
         rng = random.Random(0)
